@@ -160,7 +160,8 @@ func (h *Transport) Unmarshal(v base.HeaderValue) error {
 
 	profileFound := false
 
-	for k, rv := range kvs {
+	for _, k := range sortedKeys(kvs) {
+		rv := kvs[k]
 		v := rv
 
 		switch k {
